@@ -402,30 +402,78 @@ def keyval(ctx, prog, rule="R-KEYVAL"):
     nf = 0
     for fn in prog.q("ObjectData::findKey"):
         nf += 1
-        # the comparison with the key must be guarded by a flag that toggles every iteration
-        cmp_calls = [i for i, st in fn.calls() if st["callee"]["q"].endswith("stringEquals")]
-        ok = False
-        why = "no key comparison found"
-        for ci in cmp_calls:
-            flags = []
-            for cond, pol in fn.guards_of(ci):
-                c = fn.s(fn.strip(cond, casts=True))
-                if c["k"] == "DeclRefExpr" and c["ref"]["k"] == "local" and c.get("tk") == "bool" and pol:
-                    flags.append(c["ref"]["d"])
-            toggled = False
-            for fl in flags:
-                for j in fn.walk():
-                    sj = fn.s(j)
-                    if sj["k"] == "BinaryOperator" and sj["op"] == "=":
-                        l = fn.s(fn.strip(sj["c"][0], casts=True))
-                        r = fn.s(fn.strip(sj["c"][1], casts=True))
-                        if l["k"] == "DeclRefExpr" and l["ref"]["d"] == fl and r["k"] == "UnaryOperator" and r["op"] == "!":
-                            rr = fn.s(fn.strip(r["c"][0], casts=True))
-                            if rr["k"] == "DeclRefExpr" and rr["ref"]["d"] == fl:
-                                toggled = True
-            ok = bool(flags) and toggled
-            why = "comparison guarded by a flag toggled each slot" if ok else \
-                "every slot is compared with the key, value slots included: a string value equal to a key is taken for that key"
+        # forward typestate over (values of the boolean locals, parity of the slot the iterator rests on):
+        # createIterator leaves it on slot 0 (a key); every next() flips the parity; a boolean local is
+        # tracked through `b = true/false`, `b = !b` and tests of b.  The key is compared only at parity 0.
+        from lib import typestate
+        bools = set()
+        for j in fn.walk():
+            sj = fn.s(j)
+            if sj["k"] == "DeclStmt":
+                for dd in sj["decls"]:
+                    if dd.get("tk") == "bool":
+                        bools.add(dd["d"])
+
+        def _flag_val(fn_, e_, flags):
+            r_ = fn_.s(fn_.strip(e_, casts=True))
+            if r_["k"] == "CXXBoolLiteralExpr":
+                return bool(r_["v"])
+            if r_["k"] == "UnaryOperator" and r_["op"] == "!":
+                v_ = _flag_val(fn_, r_["c"][0], flags)
+                return None if v_ is None else (not v_)
+            if r_["k"] == "DeclRefExpr" and r_["ref"]["d"] in bools:
+                return dict(flags).get(r_["ref"]["d"])
+            return None
+
+        def _tr(fn_, e_, s_):
+            flags, par = s_
+            st_ = fn_.s(e_)
+            if st_["k"] in P.CALL_KINDS and st_.get("callee", {}).get("q", "").endswith("CollectionIterator::next"):
+                return ((flags, par ^ 1),)
+            if st_["k"] == "DeclStmt":
+                fl = dict(flags)
+                for dd in st_["decls"]:
+                    if dd["d"] in bools and "init" in dd:
+                        fl[dd["d"]] = _flag_val(fn_, dd["init"], flags)
+                return ((tuple(sorted(fl.items())), par),)
+            if st_["k"] == "BinaryOperator" and st_["op"] == "=":
+                l_ = fn_.s(fn_.strip(st_["c"][0], casts=True))
+                if l_["k"] == "DeclRefExpr" and l_["ref"]["d"] in bools:
+                    fl = dict(flags)
+                    fl[l_["ref"]["d"]] = _flag_val(fn_, st_["c"][1], flags)
+                    return ((tuple(sorted(fl.items())), par),)
+            return (s_,)
+
+        def _br(fn_, cond, pol, s_):
+            if isinstance(cond, tuple):
+                return s_
+            flags, par = s_
+            c_ = fn_.s(fn_.strip(cond, casts=True))
+            neg_ = False
+            while c_["k"] == "UnaryOperator" and c_["op"] == "!":
+                neg_ = not neg_
+                c_ = fn_.s(fn_.strip(c_["c"][0], casts=True))
+            if c_["k"] == "DeclRefExpr" and c_["ref"]["d"] in bools:
+                want = pol != neg_
+                cur = dict(flags).get(c_["ref"]["d"])
+                if cur is not None and cur != want:
+                    return None
+                fl = dict(flags)
+                fl[c_["ref"]["d"]] = want
+                return (tuple(sorted(fl.items())), par)
+            return s_
+
+        def _ck(fn_, e_, s_):
+            st_ = fn_.s(e_)
+            if st_["k"] in P.CALL_KINDS and st_.get("callee", {}).get("q", "").endswith("stringEquals") and s_[1] != 0:
+                return "the key is compared with a value slot"
+            return None
+        reps, _x, err = typestate.analyse(fn, ((), 0), _tr, _br, _ck)
+        ncmp = sum(1 for _i, st_ in fn.calls() if st_["callee"]["q"].endswith("stringEquals"))
+        ok = None if (err or not ncmp) else not reps
+        why = ("the iterator rests on a key slot (even position) at every comparison" if ok else
+               "no key comparison found" if not ncmp else
+               "every slot is compared with the key, value slots included: a string value equal to a key is taken for that key")
         ctx.ob(rule, "findKey compares key slots only", ok, fn.where, why)
         # the match exit: `return it` inside the loop only under stringEquals(...) true
         loops = [i for i in fn.walk() if fn.s(i)["k"] in ("ForStmt", "WhileStmt", "DoStmt", "CXXForRangeStmt")]
